@@ -9,7 +9,7 @@ import z3
 
 from . import theory
 from .core import Unsupported, fresh_name
-from .interp import CLASS_MODELS, METHODS, method, model
+from .interp import CLASS_MODELS, METHODS, MODELS, method, model
 from .values import SV, Arr, DynV, Maybe, Obj, Opaque, PDict, PList, SList, kind_of, mk, sym, to_z3, zbool
 
 
@@ -133,8 +133,27 @@ def same_dim(a, b):
     return None
 
 
+def fz(a):
+    """Element function of `a` as of now: later in-place updates of `a` (or, for a view, of its
+    base) are not seen.  Copy-producing numpy operations capture this; views stay dynamic."""
+    v = getattr(a, "view_of", None)
+    if v is None:
+        return a.elem
+    base, mapper = v
+    be = fz(base)
+    return lambda *idx, _be=be, _m=mapper: _be(*_m(*idx))
+
+
+def view(base, shape, mapper, tag, inv=None, inview=None):
+    out = Arr(shape, None, base.dtype, tag)
+    out.view_of = (base, mapper)
+    out.view_inv = (inv, inview)  # base index -> view index, and membership of a base index in the view
+    out.elem = lambda *idx, _b=base, _m=mapper: _b.elem(*_m(*idx))
+    return out
+
+
 def map1(a, f, dtype=None):
-    return Arr(a.shape, lambda *idx, _e=a.elem: f(_e(*idx)), dtype or a.dtype, a.tag)
+    return Arr(a.shape, lambda *idx, _e=fz(a): f(_e(*idx)), dtype or a.dtype, a.tag)
 
 
 def broadcast2(I, a, b):
@@ -158,7 +177,7 @@ def broadcast2(I, a, b):
                     shape.append(x)
 
             def fix(arr):
-                def f(*idx, _shape=arr.shape, _e=arr.elem):
+                def f(*idx, _shape=arr.shape, _e=fz(arr)):
                     real = [0 if (isinstance(s, int) and s == 1) else i for i, s in zip(idx, _shape)]
                     return _e(*real)
 
@@ -167,14 +186,14 @@ def broadcast2(I, a, b):
             return tuple(shape), fix(a), fix(b), a.dtype, b.dtype
         hi, lo = (a, b) if a.ndim > b.ndim else (b, a)
         if lo.ndim == 0:
-            f_lo = lambda *idx, _e=lo.elem: _e()
+            f_lo = lambda *idx, _e=fz(lo): _e()
         elif lo.ndim == 1 and hi.ndim == 2:
             if same_dim(lo.shape[0], hi.shape[1]) is False and lo.shape[0] != 1:
                 I.raise_(ValueError)
-            f_lo = lambda i, j, _e=lo.elem, _one=(isinstance(lo.shape[0], int) and lo.shape[0] == 1): _e(0 if _one else j)
+            f_lo = lambda i, j, _e=fz(lo), _one=(isinstance(lo.shape[0], int) and lo.shape[0] == 1): _e(0 if _one else j)
         else:
             raise Unsupported("broadcast of ranks > 2")
-        f_hi = hi.elem
+        f_hi = fz(hi)
         if hi is a:
             return hi.shape, f_hi, f_lo, a.dtype, b.dtype
         return hi.shape, f_lo, f_hi, a.dtype, b.dtype
@@ -182,7 +201,7 @@ def broadcast2(I, a, b):
         k = dk(kind_of(b))
         if k not in ("int", "real", "bool", "uid", "bytes", "str"):
             raise Unsupported(f"array op with {type(b).__name__}")
-        return a.shape, a.elem, (lambda *idx, _b=b: _b), a.dtype, k
+        return a.shape, fz(a), (lambda *idx, _b=b: _b), a.dtype, k
     shape, fb, fa, kb, ka = broadcast2(I, b, a)
     return shape, fa, fb, ka, kb
 
@@ -233,6 +252,8 @@ def binop(I, op, a, b):
     elif isinstance(op, ast.Div):
         theory.use("T-np.true division by nonzero (division by zero -> inf/nan not modelled)")
         f = lambda x, y: x / y
+    elif isinstance(op, ast.FloorDiv) and k == "int" and isinstance(b, int) and b > 0:
+        f = lambda x, y: x / y  # z3 integer division is floor division for a positive divisor
     else:
         raise Unsupported(f"array binary {type(op).__name__}")
     return Arr(shape, lambda *idx: f(conv(fa(*idx), ka), conv(fb(*idx), kb)), k, "arith")
@@ -275,10 +296,11 @@ def matmul(I, a, b):
     inner = a.shape[-1]
     if not isinstance(inner, int):
         raise Unsupported("matmul with symbolic inner dimension")
+    ea, eb = fz(a), fz(b)
     if a.ndim == 2 and b.ndim == 2:
-        return Arr((a.shape[0], b.shape[1]), lambda i, j: sum((to_real(a.elem(i, k)) * to_real(b.elem(k, j)) for k in range(inner)), z3.RealVal(0)), "real", "matmul")
+        return Arr((a.shape[0], b.shape[1]), lambda i, j: sum((to_real(ea(i, k)) * to_real(eb(k, j)) for k in range(inner)), z3.RealVal(0)), "real", "matmul")
     if a.ndim == 2 and b.ndim == 1:
-        return Arr((a.shape[0],), lambda i: sum((to_real(a.elem(i, k)) * to_real(b.elem(k)) for k in range(inner)), z3.RealVal(0)), "real", "matmul")
+        return Arr((a.shape[0],), lambda i: sum((to_real(ea(i, k)) * to_real(eb(k)) for k in range(inner)), z3.RealVal(0)), "real", "matmul")
     raise Unsupported("matmul ranks")
 
 
@@ -308,7 +330,7 @@ def index_first(I, a, i):
         return Record(a, i)
     if a.ndim == 1:
         return scalar_of(a.elem(i), a.dtype)
-    return Arr(a.shape[1:], lambda *rest, _a=a, _i=i: _a.elem(_i, *rest), a.dtype, a.tag + "[i]")
+    return view(a, a.shape[1:], lambda *rest, _i=i: (_i,) + tuple(rest), a.tag + "[i]", inv=lambda b0, *rest: tuple(rest), inview=lambda b0, *rest, _i=i: Z(b0) == Z(_i))
 
 
 class Record:
@@ -385,7 +407,7 @@ def getitem(I, a, idx):
             if eq is None and not I.path.branch(Z(idx.shape[0]) == Z(a.shape[0]), f"mask-length@{I.cur_line}"):
                 I.raise_(IndexError)
             m, pos, rank = select_cache(I, idx)
-            out = Arr((mk(m, "int"),) + tuple(a.shape[1:]), lambda j, *rest, _e=a.elem, _p=pos: _e(_p(Z(j)), *rest), a.dtype, a.tag + "[mask]")
+            out = Arr((mk(m, "int"),) + tuple(a.shape[1:]), lambda j, *rest, _e=fz(a), _p=pos: _e(_p(Z(j)), *rest), a.dtype, a.tag + "[mask]")
             if a.fields is not None:
                 out.fields = {k: getitem(I, c, idx) for k, c in a.fields.items()}
             out.sel = (a, idx, pos, rank)
@@ -395,7 +417,7 @@ def getitem(I, a, idx):
             n0 = a.shape[0]
             k = idx.ndim
 
-            def elem(*ii, _e=a.elem, _ie=idx.elem, _k=k, _n0=n0):
+            def elem(*ii, _e=fz(a), _ie=fz(idx), _k=k, _n0=n0):
                 return _e(norm(_ie(*ii[:_k]), _n0), *ii[_k:])
 
             return Arr(tuple(idx.shape) + tuple(a.shape[1:]), elem, a.dtype, a.tag + "[idx]")
@@ -424,7 +446,7 @@ def slice_first(I, a, sl):
         n = hi - lo
     else:
         n = mk(Z(hi) - Z(lo), "int")
-    out = Arr((n,) + tuple(a.shape[1:]), lambda i, *rest, _a=a, _lo=lo: _a.elem(Z(i) + Z(_lo) if not (isinstance(i, int) and isinstance(_lo, int)) else i + _lo, *rest), a.dtype, a.tag + "[:]")
+    out = view(a, (n,) + tuple(a.shape[1:]), lambda i, *rest, _lo=lo: ((Z(i) + Z(_lo)) if not (isinstance(i, int) and isinstance(_lo, int)) else i + _lo,) + tuple(rest), a.tag + "[:]")
     if a.fields is not None:
         out.fields = {k: slice_first(I, c, sl) for k, c in a.fields.items()}
     return out
@@ -445,11 +467,11 @@ def getitem_tuple(I, a, idx):
     if full(i):
         if is_int_like(j):
             jj = check_index(I, j, a.shape[1])
-            return Arr((a.shape[0],), lambda r, _a=a, _j=jj: _a.elem(r, _j), a.dtype, a.tag + "[:,j]")
+            return view(a, (a.shape[0],), lambda r, _j=jj: (r, _j), a.tag + "[:,j]", inv=lambda r, c: (r,), inview=lambda r, c, _j=jj: Z(c) == Z(_j))
         if isinstance(j, slice):
             lo, hi = slice_bounds(I, j, a.shape[1])
             n = hi - lo if isinstance(lo, int) and isinstance(hi, int) else mk(Z(hi) - Z(lo), "int")
-            return Arr((a.shape[0], n), lambda r, c, _a=a, _lo=lo: _a.elem(r, Z(c) + Z(_lo)), a.dtype, a.tag + "[:,a:b]")
+            return view(a, (a.shape[0], n), lambda r, c, _lo=lo: (r, Z(c) + Z(_lo)), a.tag + "[:,a:b]")
     if is_int_like(i) and is_int_like(j):
         ii = check_index(I, i, a.shape[0])
         jj = check_index(I, j, a.shape[1])
@@ -468,6 +490,16 @@ def getitem_tuple(I, a, idx):
 
 def setitem(I, a, idx, value):
     """In-place update of array a (the Arr object is mutated, views share it)."""
+    if getattr(a, "view_of", None) is not None:
+        inv, inview = getattr(a, "view_inv", (None, None))
+        base = a.view_of[0]
+        if inv is None or getattr(base, "view_of", None) is not None:
+            raise Unsupported("in-place store through this kind of view is not modelled")
+        tmp = Arr(a.shape, fz(a), a.dtype, a.tag)
+        setitem(I, tmp, idx, value)
+        ob, te = base.elem, tmp.elem
+        base.elem = lambda *b, _ob=ob, _te=te, _inv=inv, _in=inview: z3.If(_in(*b), _te(*_inv(*b)), _ob(*b))
+        return
     old = a.elem
     if isinstance(idx, str):
         if a.fields is None or idx not in a.fields:
@@ -480,17 +512,27 @@ def setitem(I, a, idx, value):
             col.elem = new.elem
         return
     vk = value if isinstance(value, Arr) else None
+    vke = fz(vk) if vk is not None else None
 
     def val_at(*ii):
         if vk is not None:
             if vk.ndim == 0:
-                return vk.elem()
-            return vk.elem(*ii[-vk.ndim:]) if vk.ndim <= len(ii) else vk.elem(*ii)
+                return vke()
+            return vke(*ii[-vk.ndim:]) if vk.ndim <= len(ii) else vke(*ii)
         t = zk(value, a.dtype if a.dtype != "bool" else None)
         if a.dtype == "real":
             t = to_real(t)
         return t
 
+    if isinstance(idx, tuple) and len(idx) == 2 and isinstance(idx[0], slice) and idx[0].start is None and idx[0].stop is None and is_int_like(idx[1]) and a.ndim == 2:
+        jj = check_index(I, idx[1], a.shape[1])
+        if vk is not None and vk.ndim == 1:
+            a.elem = lambda r, c, _o=old, _v=vke: z3.If(Z(c) == Z(jj), _v(r), _o(r, c))
+        elif vk is not None and vk.ndim == 0:
+            a.elem = lambda r, c, _o=old, _v=vke: z3.If(Z(c) == Z(jj), _v(), _o(r, c))
+        else:
+            a.elem = lambda r, c, _o=old: z3.If(Z(c) == Z(jj), val_at(), _o(r, c))
+        return
     if isinstance(idx, (PList, list)):
         idx = as_arr(I, idx)
     if isinstance(idx, tuple) and all(isinstance(x, Arr) for x in idx) and len(idx) == 1:
@@ -512,7 +554,7 @@ def setitem(I, a, idx, value):
             if not I.path.branch(z3.Or(Z(vk.shape[0]) == zhi - zlo, Z(vk.shape[0]) == 1), f"slice-assign-length@{I.cur_line}"):
                 I.raise_(ValueError)
             one = Z(vk.shape[0]) == 1
-            a.elem = lambda k, *rest, _o=old, _v=vk.elem: z3.If(z3.And(Z(k) >= zlo, Z(k) < zhi), _v(z3.If(one, 0, Z(k) - zlo), *rest), _o(k, *rest))
+            a.elem = lambda k, *rest, _o=old, _v=vke: z3.If(z3.And(Z(k) >= zlo, Z(k) < zhi), _v(z3.If(one, 0, Z(k) - zlo), *rest), _o(k, *rest))
         else:
             a.elem = lambda k, *rest, _o=old: z3.If(z3.And(Z(k) >= zlo, Z(k) < zhi), val_at(*rest) if vk is not None else val_at(), _o(k, *rest))
         I.event("slice-store", target=a.tag, lo=lo, hi=hi, arr=a, value=vk)
@@ -523,9 +565,9 @@ def setitem(I, a, idx, value):
             # numpy requires len(value) == count
             if not I.path.branch(Z(vk.shape[0]) == m, f"mask-assign-length@{I.cur_line}"):
                 I.raise_(ValueError)
-            a.elem = lambda k, *rest, _o=old, _m=idx, _r=rank, _v=vk: z3.If(_m.elem(k), _v.elem(_r(Z(k)), *rest), _o(k, *rest))
+            a.elem = lambda k, *rest, _o=old, _me=fz(idx), _r=rank, _v=vke: z3.If(_me(k), _v(_r(Z(k)), *rest), _o(k, *rest))
         else:
-            a.elem = lambda k, *rest, _o=old, _m=idx: z3.If(_m.elem(k), val_at(*rest) if vk is not None else val_at(), _o(k, *rest))
+            a.elem = lambda k, *rest, _o=old, _me=fz(idx): z3.If(_me(k), val_at(*rest) if vk is not None else val_at(), _o(k, *rest))
         return
     if isinstance(idx, Arr) and idx.dtype == "int":
         if getattr(idx, "flat_of", None) is not None:
@@ -590,7 +632,7 @@ def a_T(I, a):
     if a.ndim == 1:
         return a
     if a.ndim == 2:
-        return Arr((a.shape[1], a.shape[0]), lambda i, j, _a=a: _a.elem(j, i), a.dtype, a.tag + ".T")
+        return view(a, (a.shape[1], a.shape[0]), lambda i, j: (j, i), a.tag + ".T", inv=lambda i, j: (j, i), inview=lambda i, j: z3.BoolVal(True))
     raise Unsupported(".T rank")
 
 
@@ -607,7 +649,7 @@ def a_flatten(I, a, *args, **kw):
         w = a.shape[1]
         if isinstance(w, int) and w > 0:
             n = mk(Z(a.shape[0]) * w, "int") if not isinstance(a.shape[0], int) else a.shape[0] * w
-            out = Arr((n,), lambda t, _e=a.elem, _w=w: _e(Z(t) / _w, Z(t) % _w), a.dtype, a.tag + ".flat")
+            out = Arr((n,), lambda t, _e=fz(a), _w=w: _e(Z(t) / _w, Z(t) % _w), a.dtype, a.tag + ".flat")
             out.flat_of = Arr(a.shape, a.elem, a.dtype, a.tag)  # same multiset of entries, 2-D indexing
             return out
     raise Unsupported("flatten with symbolic width")
@@ -615,7 +657,7 @@ def a_flatten(I, a, *args, **kw):
 
 @method(Arr, "copy")
 def a_copy(I, a, *args, **kw):
-    out = Arr(a.shape, a.elem, a.dtype, a.tag)
+    out = Arr(a.shape, fz(a), a.dtype, a.tag)
     if a.fields is not None:
         out.fields = {k: a_copy(I, c) for k, c in a.fields.items()}
     return out
@@ -636,7 +678,7 @@ def a_tolist(I, a):
 def a_astype(I, a, dtype, **kw):
     tgt = dtype_kind(dtype)
     if tgt == a.dtype:
-        return Arr(a.shape, a.elem, a.dtype, a.tag)
+        return Arr(a.shape, fz(a), a.dtype, a.tag)
     if tgt == "int" and a.dtype == "bool":
         return map1(a, lambda e: z3.If(e, 1, 0), "int")
     if tgt == "real" and a.dtype == "int":
@@ -720,8 +762,21 @@ class _CClass:
 
 
 def np_c_getitem(I, idx):
-    """np.c_[a, b, ...] for 1-D arrays of equal length (columns) or 2-D blocks."""
+    """np.c_[a, b, ...] for 1-D arrays of equal length (columns), or scalars (one row)."""
     parts = list(idx) if isinstance(idx, tuple) else [idx]
+    if all(isinstance(x, (int, float, SV)) for x in parts):
+        terms = [to_real(zk(x, "real")) for x in parts]
+        k = len(terms)
+
+        def elem0(i, j, _t=terms):
+            if isinstance(j, int):
+                return _t[j]
+            out = _t[-1]
+            for c in range(k - 2, -1, -1):
+                out = z3.If(Z(j) == c, _t[c], out)
+            return out
+
+        return Arr((1, k), elem0, "real", "c_scalars")
     arrs = [as_arr(I, x) for x in parts]
     if all(x.ndim == 1 for x in arrs):
         n = arrs[0].shape[0]
@@ -731,12 +786,12 @@ def np_c_getitem(I, idx):
         dt = "real" if any(x.dtype == "real" for x in arrs) else arrs[0].dtype
         k = len(arrs)
 
-        def elem(i, j, _arrs=arrs):
+        def elem(i, j, _es=[fz(x) for x in arrs]):
             if isinstance(j, int):
-                return _arrs[j].elem(i)
-            out = _arrs[-1].elem(i)
+                return _es[j](i)
+            out = _es[-1](i)
             for c in range(k - 2, -1, -1):
-                out = z3.If(Z(j) == c, _arrs[c].elem(i), out)
+                out = z3.If(Z(j) == c, _es[c](i), out)
             return out
 
         return Arr((n, k), elem, dt, "c_")
@@ -847,7 +902,7 @@ def np_reduce_bool(I, a, is_any, axis=None):
         w = a.shape[1]
         if isinstance(w, int):
             f = z3.Or if is_any else z3.And
-            return Arr((a.shape[0],), lambda i, _e=a.elem: f(*[_e(i, j) for j in range(w)]) if w > 0 else z3.BoolVal(not is_any), "bool", "reduce1")
+            return Arr((a.shape[0],), lambda i, _e=fz(a): f(*[_e(i, j) for j in range(w)]) if w > 0 else z3.BoolVal(not is_any), "bool", "reduce1")
         j = z3.Int(fresh_name("j"))
 
         def elem(i, _a=a, _w=w):
@@ -938,7 +993,8 @@ def np_sum(I, args, kw):
         return mk(m, "int")
     theory.use("T-np.sum (prefix-sum function)")
     n = Z(a.shape[0])
-    key = ("prefix", id(a))
+    canon = z3.Int("prefix!canon")
+    key = ("prefix", str(z3.simplify(a.elem(canon))), str(z3.simplify(n)))
     cache = I.path.ghost.setdefault("prefix", {})
     if key not in cache:
         S = z3.Function(fresh_name("psum"), z3.IntSort(), z3.IntSort() if a.dtype == "int" else z3.RealSort())
@@ -953,7 +1009,8 @@ def np_sum(I, args, kw):
 
 def prefix_sum_fn(I, a):
     np_sum(I, [a], {})
-    return I.path.ghost["prefix"][("prefix", id(a))][0]
+    canon = z3.Int("prefix!canon")
+    return I.path.ghost["prefix"][("prefix", str(z3.simplify(a.elem(canon))), str(z3.simplify(Z(a.shape[0]))))][0]
 
 
 @model(np.delete)
@@ -970,7 +1027,7 @@ def np_delete(I, args, kw):
     if is_int_like(idx):
         i = check_index(I, idx, n)
         iz = Z(i)
-        cols = lambda arr: Arr((mk(Z(n) - 1, "int"),) + tuple(arr.shape[1:]), lambda j, *rest, _e=arr.elem: _e(z3.If(Z(j) < iz, Z(j), Z(j) + 1), *rest), arr.dtype, arr.tag + ".del")
+        cols = lambda arr: Arr((mk(Z(n) - 1, "int"),) + tuple(arr.shape[1:]), lambda j, *rest, _e=fz(arr): _e(z3.If(Z(j) < iz, Z(j), Z(j) + 1), *rest), arr.dtype, arr.tag + ".del")
     elif isinstance(idx, Arr) and getattr(idx, "arange", None) is not None:
         lo, hi = idx.arange
         zlo, zhi = Z(lo), Z(hi)
@@ -980,7 +1037,7 @@ def np_delete(I, args, kw):
             I.raise_(IndexError)
         if not I.path.branch(zlo >= 0, f"np-delete-nonneg@{I.cur_line}"):
             raise Unsupported("np.delete with a negative arange")
-        cols = lambda arr: Arr((mk(Z(n) - cnt, "int"),) + tuple(arr.shape[1:]), lambda j, *rest, _e=arr.elem: _e(z3.If(Z(j) < zlo, Z(j), Z(j) + cnt), *rest), arr.dtype, arr.tag + ".del")
+        cols = lambda arr: Arr((mk(Z(n) - cnt, "int"),) + tuple(arr.shape[1:]), lambda j, *rest, _e=fz(arr): _e(z3.If(Z(j) < zlo, Z(j), Z(j) + cnt), *rest), arr.dtype, arr.tag + ".del")
     elif isinstance(idx, Arr) and idx.dtype == "int":
         all_in_range(I, idx, n)
         member = z3.Function(fresh_name("deleted"), z3.IntSort(), z3.BoolSort())
@@ -996,7 +1053,7 @@ def np_delete(I, args, kw):
         m, pos, rank = select_cache(I, keep)
 
         def cols(arr, _keep=keep, _pos=pos, _rank=rank, _m=m):
-            out = Arr((mk(_m, "int"),) + tuple(arr.shape[1:]), lambda j, *rest, _e=arr.elem: _e(_pos(Z(j)), *rest), arr.dtype, arr.tag + ".del")
+            out = Arr((mk(_m, "int"),) + tuple(arr.shape[1:]), lambda j, *rest, _e=fz(arr): _e(_pos(Z(j)), *rest), arr.dtype, arr.tag + ".del")
             out.sel = (arr, _keep, _pos, _rank)
             return out
     elif isinstance(idx, Arr) and idx.dtype == "bool":
@@ -1022,7 +1079,7 @@ def np_vstack(I, args, kw):
             offs.append(I.binop(ast.Add(), offs[-1], x.shape[0] if isinstance(x.shape[0], int) else mk(x.shape[0], "int")))
         dt = "real" if any(x.dtype == "real" for x in items) else items[0].dtype
 
-        def elem(i, j, _es=[x.elem for x in items], _offs=offs):
+        def elem(i, j, _es=[fz(x) for x in items], _offs=offs):
             out = _es[-1](Z(i) - Z(_offs[-2]), j)
             for k in range(len(_es) - 2, -1, -1):
                 out = z3.If(Z(i) < Z(_offs[k + 1]), _es[k](Z(i) - Z(_offs[k]), j), out)
@@ -1060,6 +1117,182 @@ def vstack_symbolic(I, seq):
     return out
 
 
+def np_r_getitem(I, idx):
+    parts = list(idx) if isinstance(idx, tuple) else [idx]
+    if all(isinstance(x, Arr) and x.ndim == 2 for x in parts):
+        return np_vstack(I, [PList(parts)], {})
+    arrs = [as_arr(I, x, allow_scalar=True) for x in parts]
+    arrs = [x if x.ndim == 1 else Arr((1,), lambda i, _e=fz(x): _e(), x.dtype, x.tag) for x in arrs]
+    return np_hstack(I, [PList(arrs)], {})
+
+
+_UF: dict = {}
+
+
+def ufun(name):
+    if name not in _UF:
+        _UF[name] = z3.Function("np_" + name, z3.RealSort(), z3.RealSort())
+    return _UF[name]
+
+
+def _scalar_fn(name):
+    def fn(I, args, kw):
+        theory.use(f"T-fp.np.{name} uninterpreted on reals")
+        v = args[0]
+        f = ufun(name)
+        if isinstance(v, Arr):
+            return map1(v, lambda e: f(to_real(e)), "real")
+        return mk(f(to_real(zk(v, "real"))), "real")
+
+    return fn
+
+
+for _n in ("cos", "sin", "deg2rad", "rad2deg", "sqrt", "arctan", "tan"):
+    MODELS[id(getattr(np, _n))] = (getattr(np, _n), _scalar_fn(_n))
+
+
+@model(np.dot)
+def np_dot(I, args, kw):
+    return matmul(I, args[0], args[1])
+
+
+@model(np.cumsum)
+def np_cumsum(I, args, kw):
+    a = as_arr(I, args[0])
+    if a.ndim != 1:
+        raise Unsupported("cumsum of rank > 1")
+    S = prefix_sum_fn(I, a)
+    i1, i2 = z3.Ints("cumsum!i1 cumsum!i2")
+    e1, e2 = z3.simplify(a.elem(i1)), z3.simplify(a.elem(i2))
+    if e1.eq(e2):
+        # constant array: the prefix sums are multiples of the constant (by induction; audited natively)
+        theory.use("T-np.cumsum of a constant array: S(k) = k*c")
+        kk = z3.Int(fresh_name("k"))
+        cterm = to_real(e1) if a.dtype == "real" else e1
+        I.path.assume(z3.ForAll([kk], z3.Implies(z3.And(kk >= 0, kk <= Z(a.shape[0])), S(kk) == (z3.ToReal(kk) if a.dtype == "real" else kk) * cterm), patterns=[S(kk)]))
+    return Arr(a.shape, lambda i, _S=S: _S(Z(i) + 1), a.dtype, "cumsum")
+
+
+@model(np.ravel)
+def np_ravel(I, args, kw):
+    a = as_arr(I, args[0])
+    if a.ndim == 3:
+        return ravel3(I, a)
+    if a.ndim == 2 and not isinstance(a.shape[1], int):
+        return ravel2(I, a)
+    return a_flatten(I, a)
+
+
+def unravel2_fns(I, dims):
+    theory.use("T-np.ravel C-order of rank-2: flat(a,b) = a*d1+b")
+    key = tuple(str(z3.simplify(Z(d))) for d in dims)
+    cache = I.path.ghost.setdefault("unravel2", {})
+    hit = _lookup_dims(I, cache, dims)
+    if hit is not None:
+        return hit
+    if key not in cache:
+        d0, d1 = [Z(d) for d in dims]
+        F = z3.Function(fresh_name("flat2"), z3.IntSort(), z3.IntSort(), z3.IntSort())
+        A = z3.Function(fresh_name("unflat2A"), z3.IntSort(), z3.IntSort())
+        B = z3.Function(fresh_name("unflat2B"), z3.IntSort(), z3.IntSort())
+        a, b = z3.Ints(f"{fresh_name('a')} {fresh_name('b')}")
+        rng2 = z3.And(a >= 0, a < d0, b >= 0, b < d1)
+        I.path.assume(z3.ForAll([a, b], z3.Implies(rng2, z3.And(F(a, b) >= 0, A(F(a, b)) == a, B(F(a, b)) == b)), patterns=[F(a, b)]))
+        I.path.assume_tagged("index-polynomial", z3.ForAll([a, b], z3.Implies(rng2, z3.And(F(a, b) == a * d1 + b, F(a, b) < d0 * d1)), patterns=[F(a, b)]))
+        cache[key] = (tuple(dims), (F, A, B))
+    return cache[key][1]
+
+
+def ravel2(I, a):
+    F, A, B = unravel2_fns(I, a.shape)
+    d0, d1 = [Z(d) for d in a.shape]
+    out = Arr((d0 * d1,), lambda t, _e=fz(a): _e(A(Z(t)), B(Z(t))), a.dtype, a.tag + ".ravel")
+    out.unravel = (F, A, B, a.shape)
+    return out
+
+
+@model(np.prod)
+def np_prod(I, args, kw):
+    v = args[0]
+    items = list(v) if isinstance(v, tuple) else (v.items if isinstance(v, PList) else None)
+    if items is None:
+        raise Unsupported("np.prod of an array")
+    out = 1
+    for x in items:
+        out = I.binop(ast.Mult(), out, x)
+    return out
+
+
+def _same_dims(I, d1, d2):
+    """Provably equal shapes under the current (quantifier-free) path condition."""
+    for x, y in zip(d1, d2):
+        zx, zy = Z(x), Z(y)
+        if zx.eq(zy):
+            continue
+        if I.path.feasible(zx != zy):
+            return False
+    return True
+
+
+def _lookup_dims(I, cache, dims):
+    for key, (kd, val) in cache.items():
+        if len(kd) == len(dims) and _same_dims(I, kd, dims):
+            return val
+    return None
+
+
+def unravel_fns(I, dims):
+    """Skolem functions of the C-order flattening of a rank-3 array of shape dims=(d0,d1,d2):
+    F(a,b,c) = (a*d1 + b)*d2 + c and its inverse (A,B,C).  Axioms in the forward direction."""
+    theory.use("T-np.ravel C-order of rank-3: flat(a,b,c) = (a*d1+b)*d2+c")
+    key = tuple(str(z3.simplify(Z(d))) for d in dims)
+    cache = I.path.ghost.setdefault("unravel", {})
+    hit = _lookup_dims(I, cache, dims)
+    if hit is not None:
+        return hit
+    if key not in cache:
+        d0, d1, d2 = [Z(d) for d in dims]
+        F = z3.Function(fresh_name("flat"), z3.IntSort(), z3.IntSort(), z3.IntSort(), z3.IntSort())
+        A = z3.Function(fresh_name("unflatA"), z3.IntSort(), z3.IntSort())
+        B = z3.Function(fresh_name("unflatB"), z3.IntSort(), z3.IntSort())
+        C = z3.Function(fresh_name("unflatC"), z3.IntSort(), z3.IntSort())
+        a, b, c = z3.Ints(f"{fresh_name('a')} {fresh_name('b')} {fresh_name('c')}")
+        rng3 = z3.And(a >= 0, a < d0, b >= 0, b < d1, c >= 0, c < d2)
+        I.path.assume(z3.ForAll([a, b, c], z3.Implies(rng3, z3.And(F(a, b, c) >= 0, A(F(a, b, c)) == a, B(F(a, b, c)) == b, C(F(a, b, c)) == c)), patterns=[F(a, b, c)]))
+        I.path.assume_tagged("index-polynomial", z3.ForAll([a, b, c], z3.Implies(rng3, z3.And(F(a, b, c) == (a * d1 + b) * d2 + c, F(a, b, c) < d0 * d1 * d2)), patterns=[F(a, b, c)]))
+        cache[key] = (tuple(dims), (F, A, B, C))
+    return cache[key][1]
+
+
+def ravel3(I, a):
+    F, A, B, C = unravel_fns(I, a.shape)
+    d0, d1, d2 = [Z(d) for d in a.shape]
+    out = Arr((d0 * d1 * d2,), lambda t, _e=fz(a): _e(A(Z(t)), B(Z(t)), C(Z(t))), a.dtype, a.tag + ".ravel")
+    out.unravel = (F, A, B, C, a.shape)
+    return out
+
+
+@model(np.meshgrid)
+def np_meshgrid(I, args, kw):
+    theory.use("T-np.meshgrid default 'xy' indexing: out[j,i(,k)] = x[i], y[j](, z[k])")
+    if kw.get("indexing", "xy") != "xy":
+        raise Unsupported("meshgrid indexing other than the default")
+    arrs = [as_arr(I, x) for x in args]
+    if len(arrs) == 2:
+        x, y = arrs
+        shape = (y.shape[0], x.shape[0])
+        return (Arr(shape, lambda j, i, _e=fz(x): _e(i), x.dtype, "mesh_x"), Arr(shape, lambda j, i, _e=fz(y): _e(j), y.dtype, "mesh_y"))
+    if len(arrs) == 3:
+        x, y, z_ = arrs
+        shape = (y.shape[0], x.shape[0], z_.shape[0])
+        return (
+            Arr(shape, lambda j, i, k, _e=fz(x): _e(i), x.dtype, "mesh_x"),
+            Arr(shape, lambda j, i, k, _e=fz(y): _e(j), y.dtype, "mesh_y"),
+            Arr(shape, lambda j, i, k, _e=fz(z_): _e(k), z_.dtype, "mesh_z"),
+        )
+    raise Unsupported("meshgrid arity")
+
+
 @model(np.hstack)
 def np_hstack(I, args, kw):
     seq = args[0]
@@ -1070,10 +1303,10 @@ def np_hstack(I, args, kw):
             offs.append(I.binop(ast.Add(), offs[-1], x.shape[0] if isinstance(x.shape[0], int) else mk(x.shape[0], "int")))
         dt = "real" if any(x.dtype == "real" for x in items) else items[0].dtype
 
-        def elem(i, _items=items, _offs=offs):
-            out = _items[-1].elem(Z(i) - Z(_offs[-2]))
-            for k in range(len(_items) - 2, -1, -1):
-                out = z3.If(Z(i) < Z(_offs[k + 1]), _items[k].elem(Z(i) - Z(_offs[k])), out)
+        def elem(i, _es=[fz(x) for x in items], _offs=offs):
+            out = _es[-1](Z(i) - Z(_offs[-2]))
+            for k in range(len(_es) - 2, -1, -1):
+                out = z3.If(Z(i) < Z(_offs[k + 1]), _es[k](Z(i) - Z(_offs[k])), out)
             return out
 
         total = offs[-1]
